@@ -507,6 +507,18 @@ fn main() {
             match gotk { Err(_) => report(pid, format!("map key {} panics", show(&lit))), Ok(g) => if g != want_v { report(pid, format!("map key {} decodes to {:?}, reference {:?}", show(&lit), g, want_v)) } }
         } } } } }
     }
+    // C20 lossy configuration (found F26): errors of a Value parse over text with invalid UTF-8 are located in the INPUT
+    if want("C20") {
+        let bads: [&[u8]; 6] = [b"\"\xff\xff\xff", b"[\"\xff\xff\xff\xff\", x]", b"[\"\xff\",\n 1 2]", b"{\"\xc3\":\"\xff\" 1}", b"[\"\xff\",\n\n\"\xfe\xfe\",", b"\n[\"\xf0\x28\"] x"];
+        for b in bads.iter() {
+            let r = catch_unwind(AssertUnwindSafe(|| sonic_rs::Deserializer::from_slice(b).utf8_lossy().deserialize::<sonic_rs::Value>().map(|v| v.to_string()).map_err(|e| (e.offset(), e.line(), e.column()))));
+            match r {
+                Err(_) => report("C20", format!("lossy Value parse of {} panics", show(b))),
+                Ok(Err((off, l, c))) => { if off > b.len() || (l, c) != line_col(b, off) { report("C20", format!("lossy Value parse of {} ({} bytes): error reports offset {} line {} column {}, line/column of that offset in the input: {:?}", show(b), b.len(), off, l, c, line_col(b, off.min(b.len())))); } }
+                Ok(Ok(_)) => {}
+            }
+        }
+    }
     // C03 (lossy configuration): a stream of Values over input with invalid UTF-8 inside string literals — every
     // document after the first must still be read from its own first byte
     if want("C03") {
